@@ -4,7 +4,7 @@ CONSTANTS
   MaxElems = 2
   MaxTextKids = 1
   MaxComments = 0
-  APfx = {"-", "@"}
+  APfx = {"-", "@", "~"}
   KPfx = {"#", "_"}
   Casts = {FALSE, TRUE}
   DoEmit = TRUE
